@@ -171,6 +171,21 @@ func TestPropDiffMerge(t *testing.T) {
 			} else {
 				next = cfg.Mutate(t, prev)
 			}
+			if rapid.IntRange(0, 4).Draw(t, "reslice") == 0 {
+				// after is before with some slices cut by re-slicing (cfg.Tags = cfg.Tags[:k]):
+				// both values share their backing arrays
+				next = prev
+				nv := reflect.ValueOf(&next).Elem()
+				for i := 0; i < nv.NumField(); i++ {
+					f := nv.Field(i)
+					if nv.Type().Field(i).Tag.Get("point") == "" { // DiffPoints covers node points
+						continue
+					}
+					if f.Kind() == reflect.Slice && f.Type().Elem().Kind() != reflect.Struct && f.Len() > 0 && rapid.Bool().Draw(t, "cut") {
+						f.Set(f.Slice(0, rapid.IntRange(0, f.Len()-1).Draw(t, "cutTo")))
+					}
+				}
+			}
 			pts, err := data.DiffPoints(prev, next)
 			if err != nil {
 				t.Fatalf("DiffPoints failed: %v", err)
